@@ -260,6 +260,15 @@ func (r *NetconfResponse) record1dot1Chunks() error {
 		cursor += chunkSize
 	}
 
+	if cursor >= len(d) {
+		// the only complete way out of the loop above is the end of chunks marker ("##"), which
+		// leaves the cursor on its second character; running off the end of the data means the
+		// message was cut short.
+		return errNetconf1Dot1ParseError(
+			"unable to parse netconf response: end of chunks marker missing",
+		)
+	}
+
 	joined = bytes.TrimPrefix(joined, []byte(xmlHeader))
 
 	r.Result = string(bytes.TrimSpace(joined))
